@@ -211,9 +211,16 @@ def judge_batch(ctx, sess, st, since_n, desc, sent):
                         st.server_chans.append(cr.u32())
                     else:
                         cls = kind if kind in OPEN_KINDS else "unknown kind"
-                        why = "never enabled" if not feat or not info.get("ever", {}).get(feat) else \
-                            ("after cancel_port_forward" if feat == "tcp" and info.get("cancelled") else
-                             ("after a refused request" if info.get("refused", {}).get(feat) else "not enabled at that moment"))
+                        if not feat:
+                            why = "never enabled"
+                        elif feat == "tcp" and info.get("cancelled"):
+                            why = "after cancel_port_forward"
+                        elif info.get("refused", {}).get(feat) and not info.get("ever", {}).get(feat):
+                            why = "after a refused request"
+                        elif not info.get("ever", {}).get(feat):
+                            why = "never enabled"
+                        else:
+                            why = "not enabled at that moment"
                         ctx.violation("OPEN_CONFIRMATION for %s channel, %s" % (cls, why),
                                       "the client accepted a server-opened channel of a kind it had not enabled", wit)
             elif t == 98:
@@ -314,7 +321,7 @@ def run_session(ctx, rng, desc):
             snap = dict(enabled=dict(st.enabled), ever=dict(ever), refused=dict(refused), cancelled=cancelled)
             msgs = []
             if kind == "globals":
-                for gk in rng.sample(GLOBAL_KINDS, rng.randint(2, len(GLOBAL_KINDS))) + [rand_name(rng)]:
+                for gk in rng.sample(GLOBAL_KINDS, rng.randint(2, 4)) + [rand_name(rng)]:
                     body = sstr(gk) + (b"\x01" if rng.random() < 0.85 else b"\x00")
                     if "tcpip" in gk:
                         body += sstr("127.0.0.1") + u32(4022)
@@ -324,7 +331,12 @@ def run_session(ctx, rng, desc):
             elif kind == "opens":
                 ks = list(OPEN_KINDS) + [rand_name(rng)]
                 rng.shuffle(ks)
-                for ok in ks[:rng.randint(3, len(ks))]:
+                if op[1] == "focus":  # right after a state change: the three gated kinds + one other
+                    ks = ["x11", "auth-agent@openssh.com", "forwarded-tcpip", ks[0]]
+                    rng.shuffle(ks)
+                else:
+                    ks = ks[:rng.randint(3, 5)]
+                for ok in ks:
                     sender = st.next_sender
                     st.next_sender += 1
                     msgs.append((90, open_body(rng, ok, sender), dict(what="open", kind=ok, sender=sender)))
@@ -334,7 +346,7 @@ def run_session(ctx, rng, desc):
                     continue
                 ks = FORBIDDEN_REQ + rng.sample(OTHER_REQ, 3) + [rand_name(rng)]
                 rng.shuffle(ks)
-                for key in ks[:rng.randint(4, len(ks))]:
+                for key in ks[:rng.randint(4, 8)]:
                     ch = rng.choice(targets)
                     msgs.append((98, req_body(rng, ch, key, rng.random() < 0.9), dict(what="chanreq", key=key, chan=ch)))
             for (t, body, info) in msgs:
@@ -376,7 +388,7 @@ def run_session(ctx, rng, desc):
 
 def draw_ops(rng):
     ops = [("open_session",)]
-    n = rng.randint(5, 12)
+    n = rng.randint(4, 9)
     pool = ["globals", "opens", "opens", "chanreqs", "chanreqs", "enable_x11", "enable_agent", "enable_pf", "refused_pf",
             "cancel_pf", "open_session", "close_chan"]
     if rng.random() < 0.25:
@@ -385,8 +397,11 @@ def draw_ops(rng):
         k = rng.choice(pool)
         ops.append((k, rng.random() < 0.5))
         if k in ("enable_x11", "enable_agent", "enable_pf", "refused_pf", "cancel_pf"):
-            ops.append(("opens", False))  # always look right after a state change
-    ops.append(("opens", False))
+            ops.append(("opens", "focus"))  # always look right after a state change
+            if k == "enable_pf" and rng.random() < 0.6:
+                ops.append(("cancel_pf", False))
+                ops.append(("opens", "focus"))
+    ops.append(("opens", "focus"))
     ops.append(("globals", False))
     ops.append(("chanreqs", False))
     return ops
@@ -394,7 +409,7 @@ def draw_ops(rng):
 
 def run(ctx):
     rng = ctx.rng
-    n = ctx.pick(160, 2000)
+    n = ctx.pick(64, 1600)
     deadline = ctx.deadline(150, 1200)
     shown = 0
     for i in range(n):
@@ -413,14 +428,14 @@ def run(ctx):
         except Exception:
             ctx.inconclusive("harness error: " + traceback.format_exc()[-900:])
     q = ctx.quick
-    ctx.require("global_requests_read", 300 if q else 3000)
-    ctx.require("channel_opens_read", 600 if q else 6000)
-    ctx.require("channel_opens_read_while_enabled", 60 if q else 600)
-    ctx.require("open_confirmations_legit", 40 if q else 400)
-    ctx.require("forbidden_channel_requests_read", 400 if q else 4000)
-    ctx.require("api_request_x11", 20)
-    ctx.require("api_request_forward_agent", 20)
-    ctx.require("api_request_port_forward", 20)
-    ctx.require("api_cancel_port_forward", 10)
+    ctx.require("global_requests_read", 150 if q else 3000)
+    ctx.require("channel_opens_read", 500 if q else 8000)
+    ctx.require("channel_opens_read_while_enabled", 60 if q else 1000)
+    ctx.require("open_confirmations_legit", 40 if q else 800)
+    ctx.require("forbidden_channel_requests_read", 200 if q else 4000)
+    ctx.require("api_request_x11", 15)
+    ctx.require("api_request_forward_agent", 15)
+    ctx.require("api_request_port_forward", 15)
+    ctx.require("api_cancel_port_forward", 5)
     ctx.require("api_request_port_forward_refused", 10)
     ctx.require("channels_returned_by_accept", 10)
